@@ -102,6 +102,29 @@ async fn chain_case(ctx: &mut Ctx<'_>, n: u64, m: u64, cs: bool) {
     ctx.emit(&mut world, "root-chain", &[cyc], n + 1 >= m, json!({"n": n, "max": m})).await;
 }
 
+/// the same client (same shipped root, same datastore) a second time: an earlier cycle, with a generous
+/// limit, has walked `k` roots and recorded the last one; now `n` valid newer roots are there, limit `m`
+async fn chain_after_update_case(ctx: &mut Ctx<'_>, k: u64, n: u64, m: u64, cs: bool) {
+    let mut world = World::new(ctx.pool, Names::default());
+    let mut msgs = MsgGen(0);
+    let b = base_repo(&mut msgs, cs, false);
+    let asm = assemble(&mut world, cs, 1, 1, &b.top, &b.roles, Pin::default(), &std_online(), &mut msgs);
+    let mut roots = Vec::new();
+    for v in 2..=(n + 1) {
+        let mut x = b.root.clone();
+        x.version = v;
+        x.msg = msgs.next();
+        roots.push((AName::RootV(v), AResp::File(AFile::plain(AContent::Root(x)))));
+    }
+    let mut server1 = asm.server.clone();
+    server1.extend(roots.iter().take(k as usize).cloned());
+    let mut server2 = asm.server;
+    server2.extend(roots.iter().cloned());
+    let first = ACycle { limits: ALimits { max_root_updates: 16, ..ALimits::default() }, safe: true, now: 0, server: server1, shipped: Some(b.root.clone()), reads: vec![] };
+    let second = ACycle { limits: ALimits { max_root_updates: m, ..ALimits::default() }, safe: true, now: 10, server: server2, shipped: Some(b.root.clone()), reads: vec![] };
+    ctx.emit(&mut world, "root-chain-after-update", &[first, second], n + 1 >= m, json!({"recorded": k + 1, "n": n, "max": m})).await;
+}
+
 /// delegation graph given as edges between role indices (0 = top-level is `usize::MAX`)
 async fn graph_case(ctx: &mut Ctx<'_>, label: &str, top_to: &[usize], edges: &[(usize, usize)], nroles: usize, cs: bool, pin: Pin) {
     let mut world = World::new(ctx.pool, Names::default());
@@ -178,6 +201,14 @@ pub async fn generate(ctx: &mut Ctx<'_>, seed: u64, thorough: bool) {
         for m in 0..=4u64 {
             for n in 0..=(m + 3) {
                 chain_case(ctx, n, m, (m + n) % 2 == 0).await;
+            }
+        }
+        // a datastore that has recorded a newer root than the one shipped
+        for m in 1..=3u64 {
+            for k in 1..=3u64 {
+                for n in [k, k + m - 1, k + m, k + m + 2] {
+                    chain_after_update_case(ctx, k, n, m, (m + n + k) % 2 == 0).await;
+                }
             }
         }
         for (label, top, edges, n) in [
